@@ -6,6 +6,7 @@ PROPS["C02"] = {
     "harnesses": [
         {"name": "c02_seq", "covers": ["setsafe.refused", "setsafe.accepted"]},
         {"name": "c02_race2", "covers": ["race.one-winner"]},
+        {"name": "c02_snapshot_race", "covers": ["snapshot-race.done"]},
     ],
     "bounds": {"quick": "1 key; pre-state absent or resident (New/Ok/Updated) with any version in [1, i32::MAX); one command of {set-safe v (any i32 >= -1), set, increment n}; value strings <= 4 printable ASCII chars",
                "thorough": "same"},
@@ -141,9 +142,10 @@ PROPS["C06"] = {
     "harnesses": [
         {"name": "c06_history", "params": {"quick": {"ops": 4, "prefix": 0}, "thorough": {"ops": 5, "prefix": 0}}, "covers": ["snapshot.done"], "budget_s": {"quick": 900, "thorough": 7200}},
         {"name": "c06_history_persisted", "fn": "c06_history", "params": {"quick": {"ops": 4, "prefix": 1}, "thorough": {"ops": 5, "prefix": 1}}, "covers": ["snapshot.done"], "budget_s": {"quick": 900, "thorough": 7200}},
+        {"name": "c06_counter_history_persisted", "fn": "c06_history", "params": {"quick": {"ops": 4, "prefix": 1, "counter": 1}, "thorough": {"ops": 6, "prefix": 1, "counter": 1}}, "covers": ["snapshot.done"], "budget_s": {"quick": 900, "thorough": 7200}},
     ],
-    "bounds": {"quick": "all histories of 4 operations over {set k0 v, set key1 v, remove k0, remove key1, increment n 3, snapshot false, snapshot true} from an empty database, and the same after a fixed first phase (both keys and the counter written and persisted by an incremental snapshot); key names of 2 and 4 bytes, values of 1-3 bytes with symbolic printable content; the real snapshot_all_pendding_dbs / storage_data_disk write and the real load_all_dbs / create_db_from_file_name read over the in-memory file system; then restart (the start_db sequence of main.rs) and comparison with the reference map frozen at the last completed snapshot",
-               "thorough": "5 operations"},
+    "bounds": {"quick": "all histories of 4 operations over {set k0 v, set key1 v, remove k0, remove key1, increment n 3, snapshot false, snapshot true} from an empty database, and the same after a fixed first phase (both keys and the counter written and persisted by an incremental snapshot); key names of 2 and 4 bytes, values of 1-3 bytes with symbolic printable content; the real snapshot_all_pendding_dbs / storage_data_disk write and the real load_all_dbs / create_db_from_file_name read over the in-memory file system; then restart (the start_db sequence of main.rs) and comparison with the reference map frozen at the last completed snapshot; plus all histories of 4 operations over the counter key alone {increment n, remove n, snapshot false, snapshot true} from the persisted first phase",
+               "thorough": "5 operations; 6 for the counter histories"},
     "outside": "multi-byte UTF-8 content (lengths are concrete byte counts, content is symbolic ASCII); more than one database per history; HashMap iteration orders other than insertion order; fsync / page-cache reordering",
     "assumptions": ["in-memory file system shim with exact BufWriter capacity / flush / drop semantics", "environment shims"],
 }
@@ -245,13 +247,14 @@ PROPS["C07"] = {
     "harnesses": [
         {"name": "c07_election_2nodes", "fn": "c07_election", "params": {"quick": {"secondaries": 1, "triggers": 1, "deviations": 2, "budget": 600}, "thorough": {"secondaries": 1, "triggers": 1, "deviations": 2, "budget": 600}}, "budget_s": {"quick": 900, "thorough": 7200}},
         {"name": "c07_pause_recheck", "covers": ["pause.demoted-after-acks"]},
+        {"name": "c07_election_3nodes", "fn": "c07_election", "params": {"quick": {"secondaries": 2, "triggers": 1, "deviations": 0, "budget": 400}, "thorough": {"secondaries": 2, "triggers": 1, "deviations": 1, "budget": 400}}, "budget_s": {"quick": 900, "thorough": 7200}},
         {"name": "c07_rival_claim_2nodes", "fn": "c07_election", "params": {"quick": {"secondaries": 1, "triggers": 1, "deviations": 2, "budget": 600, "war": 1, "early": 2}, "thorough": {"secondaries": 1, "triggers": 1, "deviations": 3, "budget": 600, "war": 1, "early": 3}}, "covers": ["early-wake-up"]},
         {"name": "c07_election_2nodes_early_polls", "fn": "c07_election", "params": {"quick": {"secondaries": 1, "triggers": 1, "deviations": 1, "budget": 600, "early": 1}, "thorough": {"secondaries": 1, "triggers": 1, "deviations": 2, "budget": 600, "early": 2}}, "covers": ["early-wake-up"], "budget_s": {"quick": 900, "thorough": 7200}},
         {"name": "c07_election_2nodes_simultaneous", "fn": "c07_election", "params": {"quick": {"secondaries": 1, "triggers": 2, "deviations": 1, "budget": 600}, "thorough": {"secondaries": 1, "triggers": 2, "deviations": 1, "budget": 600}}, "budget_s": {"quick": 900, "thorough": 7200}},
     ],
     "bounds": {"quick": "cluster of 2 nodes (primary n1 older than n2) with the real start_election / election_eval / election_win / SetPrimary code; every connection handler is its own thread in cooperative mode (runs until it finishes or sleeps in an election wait loop), the real replication loops are polled, the supervisor arms election-win / primary / leave are mirrored (12 lines); triggers: debug force-election on a solver-chosen node, or on two nodes at once, or a secondary claiming the primary role while the primary is alive (`election win`, what the timeout branches of start_election do: the primary must win the role back and every node must name it again); in the *_early_polls / rival_claim harnesses a handler sleeping in a wait loop may also wake up (2 ms poll) while lines are still in flight, up to 2 times (fewer than the 6 ticks of the election timeout used there); delivery order: dedicated threads first, then connections in link order, with up to 2 (1 for simultaneous triggers) solver-chosen deviations to any other enabled event; a sleeping handler takes a timer tick only when nothing can be delivered; NUN_ELECTION_TIMEOUT = 2 ticks; local lemma (c07_pause_recheck): one candidate whose candidacy is acknowledged and which is turned secondary at a solver-chosen pause of start_election must not claim the primary role afterwards; at quiescence (within 600 scheduler steps; the longest run observed takes 161): exactly one primary, it is the older node, the other is secondary, both cluster-states name it",
                "thorough": "same"},
-    "outside": "3-node clusters (a forced election at the youngest node of a 3-node cluster did not quiesce within 1500 scheduler steps under this timing model - repeated timeouts and set-primary 'wars' because acknowledgements queue behind connection handlers that are themselves waiting in an election; not adjudicated as a defect, therefore neither claimed nor listed as a finding); node joins and primary death (need the supervisor's connection management, which is not sliced); lock-level preemption inside handlers",
+    "outside": "3-node clusters beyond the default delivery order (c07_election_3nodes: one order per trigger node; the forced election at the youngest node is the recorded finding C07-3nodes-youngest-trigger); node joins and primary death (need the supervisor's connection management, which is not sliced); lock-level preemption inside handlers",
     "assumptions": ["environment shims", "cooperative scheduling: handlers are not preempted between sleeps", "the link pump mirrors handle_client / start_replication, the supervisor arms are mirrored"],
 }
 
@@ -275,6 +278,8 @@ PROPS["C18"] = {
         _c18("c18_part3_put_fails_once", {"strategy": 2, "partitions": 3, "prefix": 2, "ops": 1, "fault": 1}, covers=("snapshot.done", "fault.put-failed")),
         _c18("c18_part1_put_fails_always", {"strategy": 2, "partitions": 1, "prefix": 1, "ops": 1, "fault": 2}, {"strategy": 2, "partitions": 1, "prefix": 1, "ops": 2, "fault": 2}, covers=("snapshot.done", "expected-panic:Fail to store partition")),
         _c18("c18_part1_get_fails_once", {"strategy": 2, "partitions": 1, "prefix": 1, "ops": 1, "fault": 3}, {"strategy": 2, "partitions": 3, "prefix": 2, "ops": 1, "fault": 3}, covers=("snapshot.done", "fault.get-failed")),
+        {"name": "c18_snapshot_race_s3", "fn": "c02_snapshot_race", "params": {"quick": {"strategy": 1}}, "covers": ["snapshot-race.done"]},
+        {"name": "c18_snapshot_race_part1", "fn": "c02_snapshot_race", "params": {"quick": {"strategy": 2}}, "covers": ["snapshot-race.done"]},
         {"name": "c18_two_dbs_s3", "fn": "c18_two_dbs", "params": {"quick": {"strategy": 1}}},
         {"name": "c18_two_dbs_part1", "fn": "c18_two_dbs", "params": {"quick": {"strategy": 2, "partitions": 1}}},
         {"name": "c18_two_dbs_part3", "fn": "c18_two_dbs", "params": {"quick": {"strategy": 2, "partitions": 3}, "thorough": {"strategy": 2, "partitions": 10}}},
